@@ -8,8 +8,8 @@ Open Scope Z_scope.
 
 (* COMPLETENESS (any speed: the clock runs on tt = distance / speed).  Every action list that is feasible by the problem definition
    (incl. ones that never return to the depot at the end) is accepted, provided the instance passes the checker's own
-   data asserts ([data_ok]: limit, windows, service times >= 0; lo < hi; lo j + d(j,0) + service j <= hi 0 for every
-   node) and -- for open routes only -- leaves time to drive home after any admissible service
+   data asserts ([data_ok]: limit, windows, service times >= 0; lo < hi; lo j + t(j,0) + service j <= hi 0 for every
+   node, t = distance / speed) and -- for open routes only -- leaves time to drive home after any admissible service
    (hi x + service x + t(x,0) <= hi 0).  Without that last condition the statement is false, see below. *)
 Theorem C06_mtvrp_checker_complete :
   forall (i : mtvrp_inst) (acts : list nat),
@@ -123,4 +123,15 @@ Example C06_mtvrp_nonvacuous :
   mtvrp_wfb i = true /\ data_ok exact i = true /\ mtvrp_feasibleb i 0 [1; 2; 0; 3; 0]%nat = true /\
   mtvrp_checker exact i [1; 2; 0; 3; 0]%nat = true /\ mtvrp_checker exact i [1; 2; 0; 3]%nat = true /\
   mtvrp_checker exact i [1; 2; 0; 0]%nat = false /\ mtvrp_checker exact i [1; 2; 3; 3; 0]%nat = false.
+Proof. vm_compute. repeat split. Qed.
+
+(* FIXED by /repo 004c254 (recorded as fixed in known_findings.json): the instance-level assert used to add the plain
+   distance d(j,0).  Speed 2, customer at distance 80 (travel time 40) whose window opens at 40, depot closing at 100: the
+   vehicle is back at 80; the assert now computes 40 + 40 <= 100 (it used to compute 40 + 80 > 100 and reject) *)
+Example C06_mtvrp_data_assert_respects_speed :
+  let i := {| dl := [0; 32]; db := [0; 0]; cap := 64; lim := 100000; opn := false;
+              tlo := [0; 40]; thi := [100; 128]; svc := [0; 0];
+              dist := [[0; 80]; [80; 0]]; tt := [[0; 40]; [40; 0]] |} in
+  mtvrp_wfb i = true /\ data_ok exact i = true /\ adm (E:=MTVRP exact true) i [1; 0]%nat = true /\
+  mtvrp_feasibleb i 0 [1; 0]%nat = true /\ mtvrp_checker exact i [1; 0]%nat = true.
 Proof. vm_compute. repeat split. Qed.
